@@ -5,9 +5,11 @@ package c14
 import (
 	"fmt"
 	"math/big"
+	"os"
 	"sort"
 	"strings"
 	"sync/atomic"
+	"time"
 
 	"github.com/consensys/gnark-crypto/ecc"
 	"github.com/consensys/gnark/backend/witness"
@@ -89,13 +91,14 @@ type hintRef struct {
 	name string
 	fn   solver.Hint
 	id   solver.HintID
+	sig  string // name used in violation signatures (groups hints that play the same role)
 }
 
 func findHint(hs []solver.Hint, suffix string) *hintRef {
 	for _, h := range hs {
 		n := solver.GetHintName(h)
 		if strings.HasSuffix(n, "."+suffix) {
-			return &hintRef{name: suffix, fn: h, id: solver.GetHintID(h)}
+			return &hintRef{name: suffix, fn: h, id: solver.GetHintID(h), sig: suffix}
 		}
 	}
 	panic("hint not found: " + suffix)
@@ -125,6 +128,7 @@ func probeHint(_ *big.Int, _ []*big.Int, out []*big.Int) error {
 var probeID solver.HintID
 
 func init() {
+	hAnd.sig, hOr.sig, hXor.sig = "byte-lookup-result-hint", "byte-lookup-result-hint", "byte-lookup-result-hint"
 	solver.RegisterHint(probeHint)
 	probeID = solver.GetHintID(probeHint)
 }
@@ -268,7 +272,11 @@ func (s *sysT) run(in, want []*big.Int, check bool, extra []solver.Option) resul
 	var res result
 	var seen atomic.Pointer[[]*big.Int]
 	opts := make([]solver.Option, 0, len(extra)+2)
-	opts = append(opts, solver.WithNbTasks(1))
+	if s.nbC < 20000 {
+		opts = append(opts, solver.WithNbTasks(1))
+	} else {
+		opts = append(opts, solver.WithNbTasks(4)) // lookup-table circuits
+	}
 	opts = append(opts, solver.OverrideHint(probeID, func(_ *big.Int, in, out []*big.Int) error {
 		cp := make([]*big.Int, len(in))
 		for i := range in {
@@ -319,6 +327,20 @@ func (c combo) name() string {
 		n[i] = c[i].h.name + ":" + c[i].name
 	}
 	return strings.Join(n, "+")
+}
+
+// hints names the hint functions a combo replaces (stable part of violation signatures).
+func (c combo) hints() string {
+	seen := map[string]bool{}
+	var n []string
+	for i := range c {
+		if !seen[c[i].h.sig] {
+			seen[c[i].h.sig] = true
+			n = append(n, c[i].h.sig)
+		}
+	}
+	sort.Strings(n)
+	return "dishonest(" + strings.Join(n, "+") + ")"
 }
 
 type lieStat struct {
@@ -606,14 +628,14 @@ func (c *caseT) lieRun(cb combo) {
 	}
 	if c.exp.kind == kUnsat {
 		a.count("lie.ACCEPTED-out-of-domain", 1)
-		c.r.Violation(c.sig("lying-hint-makes-out-of-domain-input-accepted")+"/"+cb.name(),
+		c.r.Violation(c.sig("lying-hint-makes-out-of-domain-input-accepted")+"/"+cb.hints(),
 			fmt.Sprintf("%s: input %v (doc: no proof can be generated) is accepted with dishonest hint %s, output %v", c.s, vstr(c.in), cb.name(), vstr(res.outs)),
 			c.withLie(c.replay("lie", nil, res), cb))
 		return
 	}
 	if c.s.g.nOut > 0 && !c.exp.allows(res.outs) {
 		a.count("lie.ACCEPTED-wrong-output", 1)
-		c.r.Violation(c.sig("lying-hint-yields-second-output")+"/"+cb.name(),
+		c.r.Violation(c.sig("lying-hint-yields-second-output")+"/"+cb.hints(),
 			fmt.Sprintf("%s: input %v: with dishonest hint %s Solve succeeds and the output is %v (documented: %s)", c.s, vstr(c.in), cb.name(), vstr(res.outs), c.docStr()),
 			c.withLie(c.replay("lie", nil, res), cb))
 		return
@@ -651,10 +673,10 @@ func (c *caseT) assertWrong(w []*big.Int, cbs []combo) {
 	try := func(cb combo) {
 		var st lieStat
 		var opts []solver.Option
-		name := "honest-hints"
+		name, hn := "honest-hints", "honest-hints"
 		if cb != nil {
 			opts = cb.options(&st)
-			name = cb.name()
+			name, hn = cb.name(), cb.hints()
 		}
 		res := c.s.run(c.in, w, true, opts)
 		a.count("lie.hint-calls-intercepted", int(st.calls.Load()))
@@ -662,7 +684,7 @@ func (c *caseT) assertWrong(w []*big.Int, cbs []combo) {
 			a.count("assert-wrong.ACCEPTED", 1)
 			m := c.replay("assert-wrong", w, res)
 			m["lie"] = name
-			c.r.Violation(c.sig("wrong-output-assertion-accepted")+"/"+name,
+			c.r.Violation(c.sig("wrong-output-assertion-accepted")+"/"+hn,
 				fmt.Sprintf("%s: input %v: output asserted equal to %v (documented: %s) and Solve succeeds with %s", c.s, vstr(c.in), vstr(w), c.docStr(), name), m)
 		} else {
 			a.count("assert-wrong.rejected", 1)
@@ -680,7 +702,7 @@ func (c *caseT) assertWrong(w []*big.Int, cbs []combo) {
 // finish checks the "always well-defined and deterministic" clause: at most one
 // output was accepted over all runs of this input.
 func (c *caseT) finish() {
-	if c.exp.kind == kAny {
+	if c.exp.kind == kAny || c.exp.pred != nil { // pred: only a partial guarantee is documented
 		return
 	}
 	if len(c.accepted) > 1 {
@@ -706,8 +728,12 @@ type job struct {
 func runJobs(r *vcore.Run, jobs []job, workers int) {
 	vcore.Parallel(len(jobs), workers, func(i int) {
 		a := newAcc(r)
+		t0 := time.Now()
 		pan, st := vcore.Catch(func() { jobs[i].run(a) })
 		a.flush()
+		if os.Getenv("C14_TIMES") != "" {
+			fmt.Printf("JOBTIME %8.2fs %s\n", time.Since(t0).Seconds(), jobs[i].name)
+		}
 		if pan != nil {
 			r.T.Errorf("BROKEN-CHECK property=C14: harness job %s panicked: %v\n%s", jobs[i].name, pan, st)
 		}
